@@ -675,6 +675,32 @@ def frag_raw_frame(fn):
     return body[:-1]
 
 
+def frag_read_frame_nbytes(fn):
+    """ImageFileReader.read_frame_raw: the index guard + the native (not encapsulated) branch up to
+    `frame_data = self._fp.read(n_bytes)`; the fragment computes n_bytes from index.  The position that is
+    read (`self._fp.seek(self._first_frame_offset + self._offset_table[index], 0)`) must be textually unchanged."""
+    body = _stmts(fn)
+    texts = [src(s) for s in body]
+    ifs = [n for n in body if isinstance(n, ast.If) and src(n.test) == 'self.transfer_syntax_uid.is_encapsulated']
+    if len(ifs) != 1:
+        raise Refuse('read_frame_raw: no unique `if self.transfer_syntax_uid.is_encapsulated`')
+    i = body.index(ifs[0])
+    if not (isinstance(body[0], ast.If) and isinstance(body[0].body[-1], ast.Raise) and not body[0].orelse):
+        raise Refuse('read_frame_raw: the first statement is not the index guard')
+    pre = [t for t in texts[1:i] if not t.startswith('logger.')]
+    if pre != ['frame_offset = self._offset_table[index]', 'self._fp.seek(self._first_frame_offset + frame_offset, 0)']:
+        raise Refuse(f'read_frame_raw: the seek before the branch changed: {pre}')
+    native = ifs[0].orelse
+    if not native or src(native[-1]) != 'frame_data = self._fp.read(n_bytes)':
+        raise Refuse('read_frame_raw: native branch does not end with `frame_data = self._fp.read(n_bytes)`')
+    if texts[i + 1:] != ["if len(frame_data) == 0:\n    raise OSError(f'Failed to read frame #{index}.')", 'return frame_data']:
+        raise Refuse('read_frame_raw: the code after the branch changed')
+    for s in body[:i] + native:
+        if 'index' in assigned_names([s]):
+            raise Refuse('read_frame_raw: index reassigned')
+    return [body[0]] + native[:-1]
+
+
 def frag_getitem_size(fn):
     """_prepare_getitem_index: inside `for d in range(0, 3)`, the branch `if len(tuple_index) > d:`:
     the statements between `first, last, step = index_item.indices(...)` and `new_shape.append(size)`."""
@@ -811,6 +837,8 @@ FUNCTIONS = {
     'raw_frame_native_range': dict(file=IMG, path=['_Image', 'get_raw_frame'], fragment=frag_raw_frame,
                                    params=[('frame_index', Z)], outputs=['start', 'end']),
     'bytes_per_frame_uncompressed': dict(file='io.py', path=['ImageFileReader', '_bytes_per_frame_uncompressed']),
+    'read_frame_nbytes': dict(file='io.py', path=['ImageFileReader', 'read_frame_raw'], fragment=frag_read_frame_nbytes,
+                              params=[('index', Z)], outputs=['n_bytes']),
     'tile_pixel_matrix': dict(file=SPATIAL, path=['tile_pixel_matrix']),
     'tile_positions_counts': dict(file=SPATIAL, path=['compute_tile_positions_per_frame'],
                                   fragment=frag_tile_positions_counts,
@@ -845,6 +873,10 @@ TARGETS = {
     'bytes_per_frame/C05': dict(fn='bytes_per_frame_uncompressed', statement=
                                 'forall ppf bits ybr R C, t_bytes_per_frame_uncompressed ppf bits ybr R C = '
                                 'Ok (C05_Model.lazy_bpf bits (if negb (bits =? 1) && ybr then R*C*2 else ppf))'),
+    'read_frame_nbytes/C05': dict(fn='read_frame_nbytes', statement=
+                                  'forall i n bits npx, t_read_frame_nbytes i n (C05_Model.lazy_bpf bits npx) bits npx = '
+                                  'if (i <? 0) || (i >=? n) then Err "ValueError" else Ok (C05_Model.lazy_nbytes bits npx i)   '
+                                  '(index guard + number of bytes read by the native branch of read_frame_raw)'),
     'slice_indices/C03': dict(fn='standardize_slice_indices', statement=
                               'forall s e n ai, t_standardize_slice_indices s e n ai = C03_Model.std_slice s e n ai'),
     'row_column_indices/C03': dict(fn='standardize_row_column_indices', pre=['TInt_Spec_rc'], statement=
